@@ -125,7 +125,7 @@ func c13ObjectProgram(s Src) (string, *C13Expect) {
 	n := s.Int("nstmts", 2, 8)
 	terminal := false
 	for i := 0; i < n && !terminal; i++ {
-		switch s.Int("stmt", 0, 15) {
+		switch s.Int("stmt", 0, 17) {
 		case 0, 1: // literal whose initialisers print tags
 			keys := drawKeys(s.Int("nk", 2, 6))
 			var parts []string
@@ -221,6 +221,24 @@ func c13ObjectProgram(s Src) (string, *C13Expect) {
 			dk := Pick(s, "delkey", ks)
 			delete(objKeys[on], dk)
 			ls = append(ls, fmt.Sprintf("%s(ob%d, \"%s\");", FnDelete, on, dk), fmt.Sprintf("%s %s(ob%d);", KwPrint, FnValues, on), fmt.Sprintf("%s %s(ob%d);", KwPrint, FnKeys, on))
+		case 16: // initialisers with side effects that are NOT calls (assignments), with or without a repeated name:
+			// the operations do not commute, so the order shows in the counter and in the values
+			keys := drawKeys(4)
+			if Bool(s, "repeatname") {
+				keys[2] = keys[0]
+			}
+			if Bool(s, "repeatname2") {
+				keys[3] = keys[1]
+			}
+			nobj++
+			setKeys(nobj, keys...)
+			ls = append(ls, fmt.Sprintf("%s cnt%d = 1;", KwVar, nobj),
+				fmt.Sprintf("%s ob%d = {%s: (cnt%d = cnt%d * 2 + 1), %s: (cnt%d = cnt%d * 3), %s: (cnt%d = cnt%d + 5), %s: (cnt%d = cnt%d * 7)};", KwVar, nobj, keys[0], nobj, nobj, keys[1], nobj, nobj, keys[2], nobj, nobj, keys[3], nobj, nobj),
+				fmt.Sprintf("%s cnt%d;", KwPrint, nobj), fmt.Sprintf("%s %s(ob%d);", KwPrint, FnValues, nobj), fmt.Sprintf("%s ob%d;", KwPrint, nobj))
+		case 17: // terminal: a repeated name and two failing initialisers, no call anywhere in the literal
+			k := drawKeys(2)
+			ls = append(ls, fmt.Sprintf("%s bad = {%s: nxa, %s: 1, %s: nxb};", KwVar, k[0], k[1], k[0]))
+			terminal = true
 		case 11: // a literal that names a property twice: every initialiser still runs, in source order
 			keys := drawKeys(3)
 			ntag += 4
